@@ -91,7 +91,7 @@ pub fn run(op: &str, args: &[&str]) -> Option<String> {
                 Err(e) => crate::err_shown(&e),
             })
         }
-        ("sk_dec", [h]) => Some(match deserialize_partial::<PrivateKey>(&unhex(h)?) {
+        ("sk_dec", [h]) => Some(match crate::ops_codec::dp::<PrivateKey>(&unhex(h)?) {
             Ok((k, n)) => format!("OK {} {}", show_hex(&k.to_bytes()), n),
             Err(e) => crate::err_shown(&e),
         }),
@@ -148,7 +148,7 @@ pub fn run(op: &str, args: &[&str]) -> Option<String> {
                 Err(e) => crate::err_shown(&e),
             })
         }
-        ("pk_dec", [h]) => Some(match deserialize_partial::<PublicKey>(&unhex(h)?) {
+        ("pk_dec", [h]) => Some(match crate::ops_codec::dp::<PublicKey>(&unhex(h)?) {
             Ok((k, n)) => format!("OK {} {}", show_hex(&k.to_bytes()), n),
             Err(e) => crate::err_shown(&e),
         }),
